@@ -1,6 +1,10 @@
 package chainsim
 
 import (
+	"bytes"
+	"sort"
+
+	"github.com/dominant-strategies/go-quai/core/types"
 	"math/big"
 	"strings"
 	"fmt"
@@ -424,5 +428,195 @@ func TestC08(t *testing.T) {
 			}
 			simkit.Global.Inc("seals_recomputed")
 		}}
+	})
+}
+
+// ---------------------------------------------------------------- C04 (ETX exactly once, in order) — single slice
+
+type etxKey struct {
+	origin common.Hash
+	index  uint16
+}
+
+// checkEtxHistory walks the canonical line of tip and checks the exactly-once / order / nothing-altered / liveness clauses.
+func checkEtxHistory(w *World, n *Node, tip common.Hash, fail func(class, witness, detail string)) {
+	line := w.lineOf(tip)
+	type emitted struct {
+		tx    *types.Transaction
+		block uint64
+		pos   int // global emission position along the line
+	}
+	em := map[etxKey]emitted{}
+	pos := 0
+	primeAfter := map[uint64]int{} // number of prime-order blocks strictly after zone height h
+	primes := 0
+	for i := len(line) - 1; i >= 0; i-- {
+		primeAfter[line[i].Number] = primes
+		if line[i].Order == common.PRIME_CTX {
+			primes++
+		}
+	}
+	included := map[etxKey]uint64{}
+	delivered := map[etxKey]bool{}
+	var queue []common.Hash // hashes of delivered-but-not-yet-executed ETXs, in the order the dominant chain delivered them
+	for _, bi := range line {
+		blk := n.Zone().GetBlockByHash(bi.Hash)
+		if blk == nil {
+			return
+		}
+		for _, tx := range blk.Transactions() {
+			if tx.Type() != types.ExternalTxType {
+				continue
+			}
+			k := etxKey{tx.OriginatingTxHash(), tx.ETXIndex()}
+			if at, dup := included[k]; dup {
+				fail("etx-exactly-once", "inbound-duplicate", fmt.Sprintf("ETX (origin %x index %d) executed at #%d and again at #%d", k.origin[:6], k.index, at, bi.Number))
+				return
+			}
+			included[k] = bi.Number
+			// FIFO: a block executes precisely the next items of the destination queue
+			if len(queue) == 0 || queue[0] != tx.Hash() {
+				fail("etx-order", "not-next-in-queue", fmt.Sprintf("block #%d executes ETX %x (origin %x index %d) which is not the next item of the inbound queue (queue length %d)", bi.Number, tx.Hash().Bytes()[:6], k.origin[:6], k.index, len(queue)))
+				return
+			}
+			queue = queue[1:]
+			simkit.Global.Inc("etx_delivered_checked")
+		}
+		for _, etx := range blk.OutboundEtxs() {
+			k := etxKey{etx.OriginatingTxHash(), etx.ETXIndex()}
+			if _, dup := em[k]; dup {
+				fail("etx-exactly-once", "emitted-key-reused", fmt.Sprintf("block #%d emits a second ETX under (origin %x index %d)", bi.Number, k.origin[:6], k.index))
+				return
+			}
+			em[k] = emitted{etx, bi.Number, pos}
+			pos++
+		}
+		// what the dominant chain delivered with this block becomes available to its children
+		for _, tx := range rawdb.ReadInboundEtxs(n.DBs[common.ZONE_CTX], bi.Hash) {
+			k := etxKey{tx.OriginatingTxHash(), tx.ETXIndex()}
+			e, ok := em[k]
+			if !ok {
+				fail("etx-exactly-once", "delivered-unknown", fmt.Sprintf("with dominant block #%d the zone received an ETX (origin %x index %d type %d) that no canonical zone block up to it emitted", bi.Number, k.origin[:6], k.index, tx.EtxType()))
+				return
+			}
+			if delivered[k] {
+				fail("etx-exactly-once", "delivered-twice", fmt.Sprintf("ETX (origin %x index %d) was delivered a second time with dominant block #%d", k.origin[:6], k.index, bi.Number))
+				return
+			}
+			delivered[k] = true
+			o := e.tx
+			same := o.EtxType() == tx.EtxType() && o.To() != nil && tx.To() != nil && o.To().Equal(*tx.To()) && o.ETXSender().Equal(tx.ETXSender()) && bytes.Equal(o.Data(), tx.Data())
+			if same && !types.IsConversionTx(o) {
+				same = o.Value().Cmp(tx.Value()) == 0 && o.Hash() == tx.Hash() && o.Gas() == tx.Gas()
+			}
+			if !same {
+				fail("etx-altered", "type="+fmt.Sprint(o.EtxType()), fmt.Sprintf("ETX (origin %x index %d) emitted at #%d as {type %d to %x value %v gas %d} was delivered with #%d as {type %d to %x value %v gas %d}", k.origin[:6], k.index, e.block, o.EtxType(), o.To().Bytes()[:4], o.Value(), o.Gas(), bi.Number, tx.EtxType(), tx.To().Bytes()[:4], tx.Value(), tx.Gas()))
+				return
+			}
+			queue = append(queue, tx.Hash())
+		}
+	}
+	// liveness: an ETX emitted with >= 3 prime blocks after it on the line, the last of which is followed by >= 3 zone blocks, was executed
+	if len(line) == 0 {
+		return
+	}
+	tipNum := line[len(line)-1].Number
+	var lastPrimeNum uint64
+	for _, bi := range line {
+		if bi.Order == common.PRIME_CTX {
+			lastPrimeNum = bi.Number
+		}
+	}
+	for _, k := range sortedEtxKeys(em) {
+		e := em[k]
+		if primeAfter[e.block] >= 3 && tipNum >= lastPrimeNum+3 {
+			if _, ok := included[k]; !ok {
+				fail("etx-liveness", "never-delivered", fmt.Sprintf("ETX (origin %x index %d type %d) emitted at #%d was never executed although %d prime blocks followed and the tip is #%d", k.origin[:6], k.index, e.tx.EtxType(), e.block, primeAfter[e.block], tipNum))
+				return
+			}
+			simkit.Global.Inc("etx_liveness_checked")
+		}
+	}
+}
+
+func sortedEtxKeys[V any](m map[etxKey]V) []etxKey {
+	ks := make([]etxKey, 0, len(m))
+	for k := range m {
+		ks = append(ks, k)
+	}
+	sort.Slice(ks, func(i, j int) bool {
+		if c := bytes.Compare(ks[i].origin[:], ks[j].origin[:]); c != 0 {
+			return c < 0
+		}
+		return ks[i].index < ks[j].index
+	})
+	return ks
+}
+
+func TestC04(t *testing.T) {
+	chainProperty(t, "C04", func(r *Runner, fail func(class, witness, detail string)) Hooks {
+		n := 0
+		return Hooks{
+			AfterHead: func(w *World, nd *Node, bi *BlockInfo, reorg bool) {
+				n++
+				if reorg || n%6 == 0 {
+					checkEtxHistory(w, nd, bi.Hash, fail)
+				}
+			},
+			End: func(w *World) {
+				if r.Head != w.Gen {
+					checkEtxHistory(w, r.N, r.Head, fail)
+				}
+			},
+		}
+	})
+}
+
+// ---------------------------------------------------------------- C16 (one zone, one ledger, respected by state)
+
+func checkScopes(n *Node, bi *BlockInfo, fail func(class, witness, detail string)) {
+	hdr := n.Zone().GetHeaderByHash(bi.Hash)
+	st, err := n.Zone().StateAt(hdr.EVMRoot(), hdr.EtxSetRoot(), hdr.QuaiStateSize())
+	if err != nil {
+		return
+	}
+	// The state trie is keyed by hashed addresses, so membership is probed for every address the run could have
+	// touched that does NOT belong in this zone's account state: the Qi-ledger addresses used as conversion
+	// recipients and coinbases, and foreign-zone twins of the harness accounts.
+	var probes []common.AddressBytes
+	for _, q := range qiAccounts {
+		probes = append(probes, q.Addr.Bytes20())
+	}
+	probes = append(probes, n.Cfg.QiCoinbase.Bytes20())
+	for _, qa := range quaiAccounts {
+		f := qa.Addr.Bytes20()
+		f[0] = 0x01 // zone 0-1
+		probes = append(probes, f)
+	}
+	for _, p := range probes {
+		loc := p.Location()
+		inScope := loc != nil && loc.Equal(LocZone) && p.IsInQuaiLedgerScope()
+		if inScope {
+			continue
+		}
+		if st.Exist(common.InternalAddress(p)) {
+			fail("state-scope", "out-of-scope-account-exists", fmt.Sprintf("state of zone 0-0 at #%d contains an account for %x (zone %v, qi-ledger %v)", bi.Number, p, loc, p.IsInQiLedgerScope()))
+			return
+		}
+		simkit.Global.Inc("accounts_scope_checked")
+	}
+	for _, u := range ScanUtxos(n.DBs[common.ZONE_CTX]) {
+		a := common.AddressBytes(u.Entry.Address)
+		if loc := a.Location(); loc == nil || !loc.Equal(LocZone) || !a.IsInQiLedgerScope() {
+			fail("utxo-scope", "owner-out-of-scope", fmt.Sprintf("UTXO %s at #%d is owned by %x which is not an in-zone Qi address", u.Key(), bi.Number, u.Entry.Address))
+			return
+		}
+		simkit.Global.Inc("utxos_scope_checked")
+	}
+}
+
+func TestC16(t *testing.T) {
+	chainProperty(t, "C16", func(r *Runner, fail func(class, witness, detail string)) Hooks {
+		return Hooks{AfterHead: func(w *World, n *Node, bi *BlockInfo, reorg bool) { checkScopes(n, bi, fail) }}
 	})
 }
